@@ -5,7 +5,8 @@
    classes \w and \s are parameters (is_w, is_sp): every theorem holds for all classifications. *)
 Require Import PonyV.Base.PyBase PonyV.Model.C06Str PonyV.Model.C06Lex PonyV.Model.C06Params PonyV.Model.C30Scan PonyV.Model.C30Adapt
                PonyV.Proofs.C06StrLemmas PonyV.Proofs.C30Proofs
-               PonyV.Model.C30RawType PonyV.Gen.C30RawType PonyV.Proofs.C30RawTypeProofs.
+               PonyV.Model.C30RawType PonyV.Gen.C30RawType PonyV.Proofs.C30RawTypeProofs
+               PonyV.Model.C30Regex PonyV.Gen.C30Regex PonyV.Model.C30RegexParse PonyV.Proofs.C30RegexProofs.
 
 (* A statement is a list of segments: text without $, $$, $expression (optionally closed by white space and a semicolon).
    wf_segs: text segments contain no $, and for every expression segment the scanner's cut is where the author's expression
@@ -100,6 +101,49 @@ Theorem C30_rawtype_items_determined : forall is_w is_sp a b,
   rawtype_eqb a b = true -> rt_items a = rt_items b.
 Proof. exact rawtype_items_determined. Qed.
 Print Assumptions C30_rawtype_items_determined.
+
+(* ---------------------------------------------------------------------------------------------------------------
+   The scanner model against a regex-derived specification.  expr1_re / expr2_re / expr3_re (Gen/C30Regex.v) are the three
+   compiled patterns of pony.utils.parse_expr, translated from CPython's own parse tree of the pattern text on every run;
+   re_match / re_search (Model/C30Regex.v) is a backtracking matcher with Python's priority semantics (first alternative,
+   greedy / lazy star, lastindex).  For every classification of \w and \s such that \s contains none of ; . ( [ and no
+   identifier start (true of CPython's, checked on every run):
+   the scanner steps are exactly the regex results, and parse_expr written literally over the regexes is the scanner. *)
+Definition space_class_ok (is_sp : Z -> bool) : Prop :=
+  is_sp 59 = false /\ is_sp 46 = false /\ is_sp 40 = false /\ is_sp 91 = false /\ forall c, is_sp c = true -> is_id_start c = false.
+
+Theorem C30_regex_expr1 : forall is_w is_sp, space_class_ok is_sp -> forall s, re_match is_w is_sp expr1_re s = head1 is_w s.
+Proof. intros is_w is_sp (H1 & H2 & H3 & H4 & H5). exact (expr1_match is_w is_sp H1 H2 H3 H4). Qed.
+Print Assumptions C30_regex_expr1.
+
+Theorem C30_regex_expr2 : forall is_w is_sp, space_class_ok is_sp ->
+  forall s, re_match is_w is_sp expr2_re s = option_map erase (trailer is_w is_sp s).
+Proof. intros is_w is_sp (H1 & H2 & H3 & H4 & H5). exact (expr2_match is_w is_sp H1 H2 H3 H4 H5). Qed.
+Print Assumptions C30_regex_expr2.
+
+Theorem C30_regex_expr3_search : forall is_w is_sp, space_class_ok is_sp ->
+  forall s, option_map (fun sr => (tok_kind (fst sr), snd sr)) (re_search is_w is_sp expr3_re s) = next_tok s.
+Proof. intros is_w is_sp (H1 & H2 & H3 & H4 & H5). exact (expr3_search is_w is_sp H1 H2 H3 H4). Qed.
+Print Assumptions C30_regex_expr3_search.
+
+Theorem C30_parse_expr_is_regex_algorithm : forall is_w is_sp, space_class_ok is_sp ->
+  forall s, parse_expr_re is_w is_sp s = parse_expr_rest is_w is_sp s.
+Proof. intros is_w is_sp (H1 & H2 & H3 & H4 & H5). exact (parse_expr_re_scanner is_w is_sp H1 H2 H3 H4 H5). Qed.
+Print Assumptions C30_parse_expr_is_regex_algorithm.
+
+(* the ASCII classes used by the correspondence run satisfy the hypotheses *)
+Theorem C30_ascii_classes_ok : space_class_ok ascii_sp /\ forall extra, (forall c, In c extra -> 128 <= c) -> space_class_ok (tab_sp extra).
+Proof.
+  assert (A : space_class_ok ascii_sp) by (repeat split; try reflexivity; intros c H; unfold ascii_sp in H; unfold is_id_start; lia).
+  split; [exact A|]. intros extra Hx. destruct A as (A1 & A2 & A3 & A4 & A5).
+  assert (N : forall c, c < 128 -> existsb (Z.eqb c) extra = false).
+  { intros c Hc. destruct (existsb (Z.eqb c) extra) eqn:E; [|reflexivity]. apply existsb_exists in E. destruct E as (x & Hin & Hx2).
+    specialize (Hx x Hin). lia. }
+  unfold space_class_ok, tab_sp. rewrite A1, A2, A3, A4, !N by lia. repeat split; try reflexivity.
+  intros c H. apply orb_true_iff in H. destruct H as [H|H]; [apply A5; exact H|].
+  apply existsb_exists in H. destruct H as (x & Hin & Hx2). specialize (Hx x Hin). unfold is_id_start. lia.
+Qed.
+Print Assumptions C30_ascii_classes_ok.
 
 (* non-vacuity:  select $x, $(y[1]) ;  where a=$$  under numeric and pyformat *)
 Example C30_nonvacuous :
